@@ -38,7 +38,8 @@ def eq_holds(X, A, n, j, do, shift, noise_iv):
 @contract("sempler.anm.ANM.sample", cases={'do_interventions': ['dictcall:do'], 'shift_interventions': ['dictcall:shift'], 'noise_interventions': ['dictcall:newnoise'],
                                            'random_state': ['none', 'int'], 'assign_shape': ['vec', 'col', 'scalar']},
           quick_cases=[{'do_interventions': 'dictcall:do', 'shift_interventions': 'dictcall:shift', 'noise_interventions': 'dictcall:newnoise', 'random_state': 'int', 'assign_shape': 'vec'},
-                       {'do_interventions': 'dictcall:do', 'shift_interventions': 'dictcall:shift', 'noise_interventions': 'dictcall:newnoise', 'random_state': 'none', 'assign_shape': 'col'}])
+                       {'do_interventions': 'dictcall:do', 'shift_interventions': 'dictcall:shift', 'noise_interventions': 'dictcall:newnoise', 'random_state': 'none', 'assign_shape': 'col'}],
+          self_from_init=True)
 def anm_sample(self: Obj('sempler.anm.ANM', p=Int, A=Arr2, ordering=ListOf(Int), assignments=Callables('assign'), noise_distributions=Callables('noise')), n: Int) -> Arr2:
     requires(anm_ok(self), n >= 0,
              all(0 <= t and t < self.p for t in do_interventions), all(0 <= t and t < self.p for t in shift_interventions),
